@@ -254,6 +254,28 @@ def check(ctx):
            "each element's occurrences are counted over the whole group, so argmax picks the first most frequent value like statistics.mode" if ok else
            "the occurrence count does not range over the whole group: with ties the accelerated mode picks another element than statistics.mode",
            clause="mode breaks ties by first occurrence; same values with USE_NUMBA on and off")
+    # every element counts itself: the Python kernel (statistics.mode / Counter) gives each element a count of at least 1 --
+    # also a NaN / NaT, which is a key of its own there -- while `xg[j] == xg[i]` is False for a missing element even when
+    # j == i.  The count test must therefore also hold for j == i (or the counts start at 1 and the diagonal is skipped).
+    idxs = [norm(n.target) for n in inner if isinstance(n.target, ast.Name)]
+    eqs = [n for n in ast.walk(mk.node) if isinstance(n, ast.If) and any(
+        isinstance(c, ast.Compare) and len(c.ops) == 1 and isinstance(c.ops[0], ast.Eq) and gvar in norm(c.left) and gvar in norm(c.comparators[0])
+        for c in ast.walk(n.test))]
+    if eqs and len(idxs) >= 2:
+        t_ = eqs[0].test
+        diag = any(isinstance(c, ast.Compare) and len(c.ops) == 1 and isinstance(c.ops[0], ast.Eq)
+                   and {norm(c.left), norm(c.comparators[0])} == set(idxs[:2]) for c in ast.walk(t_)) and \
+            isinstance(t_, ast.BoolOp) and isinstance(t_.op, ast.Or)
+        starts1 = any(isinstance(c, ast.Call) and norm(c.func) in ("np.full", "np.ones") and (norm(c.func) == "np.ones" or (len(c.args) > 1 and norm(c.args[1]) == "1"))
+                      for c in ast.walk(mk.node)) and any(
+            isinstance(c, ast.Compare) and len(c.ops) == 1 and isinstance(c.ops[0], ast.NotEq) and {norm(c.left), norm(c.comparators[0])} == set(idxs[:2])
+            for c in ast.walk(t_))
+        okd = diag or starts1
+        ctx.ob("SIB-8", mk, f"occurrence test {norm(t_)[:60]}", eqs[0], okd,
+               "an element is counted for itself even when it is not equal to itself (NaN, NaT)" if okd else
+               f"`{norm(t_)[:50]}` is False for a missing element compared with itself: with drop_na=False a NaN / NaT gets count 0 in the "
+               f"compiled kernel and count 1 in statistics.mode, so for a group like [nan, 1.0, nan] the mode is 1.0 with USE_NUMBA on and "
+               f"missing (the first of the tied elements) with it off", clause="the same values, the same missing-value positions")
     # ---------------------------------------------------------- PURE-kernel
     n_k = 0
     for f in list(agg.functions.values()):
